@@ -1,7 +1,13 @@
 #!/bin/bash
-# lib/runall.sh [quick|thorough] : every claimed property's check in turn (verdicts are shared through work/verdicts)
+# lib/runall.sh [quick|thorough] [property ids...] : the checks of the given (default: all claimed) properties in turn
+# (verdicts are shared through work/verdicts and the executors' caches)
 TIER=${1:-quick}
+shift
 cd /verif
-for p in $(python3 -c "import sys; sys.path.insert(0,'lib'); import registry; print(' '.join(sorted(registry.CLAIMED)))"); do
+PROPS="$@"
+if [ -z "$PROPS" ]; then
+  PROPS=$(python3 -c "import sys; sys.path.insert(0,'lib'); import registry; print(' '.join(sorted(registry.CLAIMED)))")
+fi
+for p in $PROPS; do
   echo "=== $p"; ./check $p $TIER 2>&1 | tail -n 14
 done
